@@ -266,6 +266,13 @@ pub fn gen_scen(rng: &mut Rng, _thorough: bool) -> Scen {
     match fam {
         0 | 1 => {
             // budget run, fast children, some rejections
+            if rng.chance(1, 10) {
+                // a budget of zero: nothing is started (the time limit only ends a run that wrongly goes on)
+                let mut sc = base_scen("budget-zero");
+                sc.opts = vec![s("-n"), s("0"), s("--num-concurrent"), nc.to_string(), s("--terminate-after"), s("1500ms")];
+                sc.expect = json!({"exit": "fail", "starts": 0, "stdoutLines": 0, "survivors": 0});
+                return sc;
+            }
             let n = 1 + rng.below(10) as usize;
             let mut sc = base_scen("budget");
             if rng.chance(1, 4) {
@@ -334,7 +341,13 @@ pub fn gen_scen(rng: &mut Rng, _thorough: bool) -> Scen {
             let nc = 2 + rng.below(2) as usize;
             let mut sc = base_scen("failure");
             sc.opts = vec![s("-n"), s("20"), s("--num-concurrent"), nc.to_string()];
-            let bad = match rng.below(8) { 0 => json!({"wait": true, "exit": 3, "stdout": "{\"objFuncVal\": 1}"}), 1 => json!({"wait": true, "stdout": "this is not json"}),
+            let bad = match rng.below(12) {
+                                           // a result member of the wrong JSON type is not a rejection (only null / absent is)
+                                           8 => json!({"wait": true, "stdout": *rng.pick(&["{\"objFuncVal\": \"0.25\"}", "{\"objFuncVal\": true}", "{\"objFuncVal\": [1]}", "{\"objFuncVal\": {}}"])}),
+                                           // output that is not UTF-8: the diagnostic files hold exactly these bytes
+                                           9 => json!({"wait": true, "exit": 3, "stdout_hex": "e96c616e20766974616cff00fe", "stderr_hex": "fffe4c6174696e31e9"}),
+                                           10 => json!({"wait": true, "stdout_hex": "7b226f626a46756e6356616c223a20e97d", "stderr_hex": "c328"}),
+                                           11 => json!({"wait": true, "exit": 1, "stdout": "plain text", "stderr_hex": "80818283"}), 0 => json!({"wait": true, "exit": 3, "stdout": "{\"objFuncVal\": 1}"}), 1 => json!({"wait": true, "stdout": "this is not json"}),
                                            // a well-formed result followed by more output (a second document, a log line): not a result
                                            5 => json!({"wait": true, "stdout": "{\"objFuncVal\": 1}\nTraceback (most recent call last):\n"}),
                                            6 => json!({"wait": true, "stdout": "{\"objFuncVal\": 1} {\"objFuncVal\": 2}"}),
@@ -462,7 +475,7 @@ pub fn gen_scen(rng: &mut Rng, _thorough: bool) -> Scen {
                 // a discrete space with a resizable map, 40 evaluations one at a time, objective a function of the seed:
                 // the verbose twin must evaluate the very same parameter sets and print the same line
                 let mut sc = base_scen("outputs");
-                sc.spec_yaml = "flags:\n  type: anon map\n  initSize: 2\n  valueType:\n    type: bool\n    init: false\nmode:\n  type: enum\n  values: [a, b, c]\n  init: a\non:\n  type: bool\n  init: true\n".into();
+                sc.spec_yaml = "typeDef flag:\n  type: bool\n  init: false\nflags:\n  type: anon map\n  initSize: 3\n  valueType:\n    type: flag\ntags:\n  type: anon map\n  initSize: 0\n  valueType:\n    type: flag\nmode:\n  type: enum\n  values: [a, b, c]\n  init: a\non:\n  type: bool\n  init: true\n".into();
                 sc.opts = vec![s("-n"), s("40")];
                 if verbose { sc.opts.push(s("--verbose")); }
                 sc.plan = json!({"default": {"value_of_seed": *rng.pick(&["pos", "neg", "const"])}});
